@@ -88,14 +88,21 @@ WrapCalls(s) ==
 Impl == IF "VERIF_IMPL" \in DOMAIN IOEnv THEN IOEnv.VERIF_IMPL ELSE "memfs"
 WKind == IF Kind = "rofs-sym" THEN "rofs" ELSE Kind
 
+\* C11: views at /w/B (BpBase tree), at / and at /w; calls as for BasePathFS plus the per-view setters
+SubDirs == IF "VERIF_SUBALL" \in DOMAIN IOEnv THEN {<<"w", "B">>, <<"w">>, <<>>} ELSE {<<"w", "B">>}
+SubCalls == BpCalls \cup {[C0 EXCEPT !.op = "setumask", !.perm = m] : m \in {0, 63}}
+
 \* FailFS fault plans: the first or second consultation of a primitive fails
 PlanFns == {"OpenFile", "FileWrite", "FileClose", "FileRead", "FileStat", "FileReadDir", "ReadFile", "ReadDir", "Mkdir",
             "MkdirTemp", "MkdirAll", "Remove", "RemoveAll", "Rename", "Link", "Symlink", "Truncate", "Chmod", "Chtimes",
             "Stat", "Lstat", "Chdir", "CreateTemp", "FileSeek", "FileTruncate", "FileSync", "FileChmod", "FileWriteAt",
             "FileReadAt", "FileReaddirnames"}
 Plans == IF WKind = "failfs" THEN {NoPlan} \cup {[fn |-> f, k |-> k] : f \in PlanFns, k \in 1..2} ELSE {NoPlan}
-WrapName == IF wx.plan.fn = "none" THEN w ELSE w \o ":" \o wx.plan.fn \o ":" \o ToString(wx.plan.k)
-PlanFired == wx.plan.fn # "none" /\ CountOf(wx.fc, wx.plan.fn) >= wx.plan.k
+RECURSIVE JoinSlash(_)
+JoinSlash(ps) == IF ps = <<>> THEN "" ELSE "/" \o Head(ps) \o JoinSlash(Tail(ps))
+WrapName == IF w = "sub" THEN "sub:" \o (IF wx.dir = <<>> THEN "/" ELSE JoinSlash(wx.dir))
+            ELSE IF wx.plan.fn = "none" THEN w ELSE w \o ":" \o wx.plan.fn \o ":" \o ToString(wx.plan.k)
+PlanFired == w # "sub" /\ wx.plan.fn # "none" /\ CountOf(wx.fc, wx.plan.fn) >= wx.plan.k
 
 EdgeFile == IF "VERIF_EDGES" \in DOMAIN IOEnv THEN IOEnv.VERIF_EDGES ELSE ""
 Emit(rec) == IF EdgeFile = "" THEN TRUE ELSE CSVWrite("%1$s", <<ToJson(rec)>>, EdgeFile)
@@ -103,16 +110,18 @@ Emit(rec) == IF EdgeFile = "" THEN TRUE ELSE CSVWrite("%1$s", <<ToJson(rec)>>, E
 RECURSIVE RunAll(_, _)
 RunAll(s, cs) == IF cs = <<>> THEN s ELSE RunAll(Apply(s, Head(cs)).st, Tail(cs))
 
-Init == st = (IF Kind = "basepath" THEN RunAll(InitSt, BpBase) ELSE InitSt)
-        /\ hist = (IF Kind = "basepath" THEN BpBase ELSE <<>>) /\ w = "none" /\ wh = <<>> /\ last = [call |-> C0, res |-> R0] /\ wx = X0
+Init == st = (IF Kind \in {"basepath", "sub"} THEN RunAll(InitSt, BpBase) ELSE InitSt)
+        /\ hist = (IF Kind \in {"basepath", "sub"} THEN BpBase ELSE <<>>) /\ w = "none" /\ wh = <<>> /\ last = [call |-> C0, res |-> R0] /\ wx = X0
 
 Build ==
-    /\ w = "none" /\ Len(hist) < BuildLen /\ Kind # "basepath"
+    /\ w = "none" /\ Len(hist) < BuildLen /\ Kind \notin {"basepath", "sub"}
     /\ \E c \in BuildCalls : LET o == Apply(st, c) IN
           /\ o.res.err = "ok"
           /\ st' = o.st /\ hist' = Append(hist, c) /\ last' = [call |-> c, res |-> o.res] /\ UNCHANGED <<w, wh, wx>>
 
-Wrap == w = "none" /\ w' = WKind /\ (\E p \in Plans : wx' = [plan |-> p, fc |-> EmptyFn]) /\ UNCHANGED <<st, hist, wh, last>>
+Wrap == /\ w = "none" /\ w' = WKind /\ UNCHANGED <<st, hist, wh, last>>
+        /\ IF WKind = "sub" THEN \E d \in SubDirs : wx' = [dir |-> d, vcwd |-> <<>>, umask |-> st.umask]
+           ELSE \E p \in Plans : wx' = [plan |-> p, fc |-> EmptyFn]
 
 \* the strict outcome through the wrapper (the first admissible error of a refusal is the canonical one)
 Through(s, c) ==
@@ -124,15 +133,17 @@ Through(s, c) ==
 
 Call ==
     /\ w # "none" /\ Len(wh) < WrapLen /\ ~PlanFired
-    /\ \E c \in (IF Kind = "basepath" THEN BpCalls ELSE WrapCalls(st)) : LET o == Through(st, c)
-                                      rp == Res(st, IF Kind = "basepath" THEN ToBase(st, c.p) ELSE c.p, FALSE) IN
+    /\ \E c \in (IF Kind = "basepath" THEN BpCalls ELSE IF Kind = "sub" THEN SubCalls ELSE WrapCalls(st)) :
+                                  LET o == Through(st, c)
+                                      rp == Res(st, IF Kind = "basepath" THEN ToBase(st, c.p)
+                                                    ELSE IF Kind = "sub" THEN ToBaseD(wx.dir, wx.vcwd, c.p) ELSE c.p, FALSE) IN
           \* removing or moving the working directory (or an ancestor of it) is outside the universe
           /\ ~(c.op \in {"remove", "removeall", "rename"} /\ rp.err = "ok" /\ rp.id # Root /\ rp.id \in Range(st.cwd))
           \* under a fault plan only calls that consult the planned primitive are of interest
-          /\ (wx.plan.fn # "none" => \E i \in DOMAIN o.cons : o.cons[i] = wx.plan.fn)
+          /\ ((w # "sub" /\ wx.plan.fn # "none") => \E i \in DOMAIN o.cons : o.cons[i] = wx.plan.fn)
           /\ st' = o.st /\ wh' = Append(wh, c) /\ last' = [call |-> c, res |-> o.res] /\ wx' = o.x /\ UNCHANGED <<hist, w>>
           /\ Emit([hist |-> hist, wrap |-> WrapName, wh |-> wh, call |-> c, res |-> o.res, pre |-> Proj(st),
-                   post |-> Proj(o.st), cwd |-> CwdPath(o.st), cons |-> o.cons, hs |-> HObs(o.st)])
+                   post |-> Proj(o.st), cwd |-> CwdPath(o.st), cons |-> o.cons, hs |-> HObs(o.st), um |-> o.st.umask])
           /\ \A i \in {"memfs", "orefafs"} :
                \A a \in {y \in WOutcomes(w, i, st, c, wx) : y.kf # "" /\ y.cons = o.cons} :
                   Emit([t |-> "alt", hist |-> hist, wrap |-> WrapName, wh |-> wh, call |-> c,
@@ -149,6 +160,10 @@ RoRefusesMutators == [][(w \in {"rofs", "failro"} /\ w' = w /\ last'.call.op \in
                             => last'.res.err \in PermErrs \cup {"CLOSED", "NOHANDLE"}]_vars
 \* C10 on the specification: nothing outside B changes through the wrapper
 BpConfines == [][(w = "basepath" /\ w' = w) => Outside(st') = Outside(st)]_vars
+
+\* C11 on the specification: a view reaches nothing outside its directory and never changes the parent's own state
+SubConfines == [][(w = "sub" /\ w' = w) => (OutsideD(wx.dir, st') = OutsideD(wx.dir, st)
+                                             /\ st'.umask = st.umask /\ st'.cwdn = st.cwdn /\ st'.uid = st.uid)]_vars
 
 \* C12 on the specification: an injected failure is returned as such, and without a plan FailFS is the base
 Composites == {"readfile", "readdir", "writefile", "create", "mkdirtemp", "openclose", "createtemp", "subwrite", "submkdir"}
